@@ -546,7 +546,12 @@ pub fn run_sock(args: &[&str]) -> String {
         }
     }
     std::thread::sleep(Duration::from_millis(150));
-    let alive = probe(&text);
+    // a dead responder stays dead; a slow or lossy moment does not: before reporting DEAD ask again after a pause
+    let mut alive = probe(&text);
+    if !alive {
+        std::thread::sleep(Duration::from_millis(1500));
+        alive = probe(&text) || probe(&text);
+    }
     std::mem::forget(responder);
     if alive {
         format!("ALIVE {:x}", sent)
